@@ -617,7 +617,8 @@ class simplify_chained_calls(FuncADLNodeTransformer):
         """
         # Get the value out - this is due to supporting python 3.7-3.9
         n = s.value
-        if n is None:
+        if n is None or any(isinstance(e, ast.Starred) for e in v.elts):
+            # (with a starred element nobody knows what sits at position n)
             return ast.Subscript(v, s, ast.Load())  # type: ignore
         assert isinstance(n, int), "Programming error: index is not an integer in tuple subscript"
         if n >= len(v.elts):
@@ -635,7 +636,7 @@ class simplify_chained_calls(FuncADLNodeTransformer):
         Only works if index is a number
         """
         n = s.value
-        if n is None:
+        if n is None or any(isinstance(e, ast.Starred) for e in v.elts):
             return ast.Subscript(v, s, ast.Load())  # type: ignore
         if n >= len(v.elts):
             raise FuncADLIndexError(
@@ -656,6 +657,9 @@ class simplify_chained_calls(FuncADLNodeTransformer):
 
     def visit_Subscript_Dict_with_value(self, v: ast.Dict, s: Union[str, int]):
         "Do the lookup for the dict. Returns None if the key is not in the dict."
+        if any(k is None for k in v.keys):
+            # A `**mapping` entry may define (or override) any key
+            return None
         # As in python, the last of several equal keys is the one that counts
         for index, value in reversed(list(enumerate(v.keys))):
             if isinstance(value, ast.Constant) and value.value == s:
